@@ -432,3 +432,458 @@ Proof.
     intros sh0 Hsh0. destruct (ie_tid HE sh0 Hsh0) as [a0 Ha0].
     rewrite Hfind2. destruct (shape_eqb sh0 sh'); eauto.
 Qed.
+
+(** * In-place write of one component ([set_value]) *)
+Lemma set_value_spec w i g sh r c v :
+  Inv w ->
+  nth_error (w_slots w) i = Some (mkSlot g (Some (sh, r))) ->
+  get_bit c sh = true ->
+  exists archs1 old,
+    set_value sh r c v (w_archs w) = Some (archs1, old) /\
+    Inv (with_store w archs1 (w_tid w) (w_slots w) (w_free w) (w_len w)).
+Proof.
+  intros HI Hs Hb.
+  destruct (@inv_fwd w HI i g sh r Hs) as (a & vals & Ha & Hr).
+  pose proof (find_arch_shape _ _ Ha) as Hsh.
+  pose proof (find_arch_In _ _ Ha) as Hin.
+  destruct (@inv_shapes w HI a Hin) as [Hlen Hrows].
+  assert (Hvl : length vals = count_true sh).
+  { rewrite <- Hsh. apply (Hrows _ (nth_error_In _ _ Hr)). }
+  destruct (nth_error vals (rank c sh)) as [old|] eqn:Hold.
+  2:{ apply nth_error_None in Hold. pose proof (rank_lt sh c Hb). lia. }
+  set (f := fun rw : row => (fst rw, upd (rank c sh) (fun _ => v) (snd rw))).
+  exists (upd_arch sh (upd r f) (w_archs w)), old.
+  split.
+  { unfold set_value. rewrite Ha. cbn [obind]. rewrite Hr. cbn [obind snd].
+    rewrite Hold. cbn [obind]. reflexivity. }
+  assert (Hfind1 : forall sh0, find_arch sh0 (upd_arch sh (upd r f) (w_archs w)) =
+            if shape_eqb sh0 sh then Some (mkArch sh (upd r f (a_rows a)))
+            else find_arch sh0 (w_archs w)).
+  { intros sh0. rewrite find_upd_arch, Ha. cbn [option_map]. rewrite Hsh. reflexivity. }
+  assert (Hrow1 : forall j id vals0, nth_error (upd r f (a_rows a)) j = Some (id, vals0) ->
+            exists vals1, nth_error (a_rows a) j = Some (id, vals1)).
+  { intros j id vals0 H. rewrite nth_error_upd in H.
+    destruct (Nat.eqb j r); eauto.
+    destruct (nth_error (a_rows a) j) as [[id1 v1]|]; cbn in H; inversion H; eauto. }
+  assert (Hrow2 : forall j id vals0, nth_error (a_rows a) j = Some (id, vals0) ->
+            exists vals1, nth_error (upd r f (a_rows a)) j = Some (id, vals1)).
+  { intros j id vals0 H. rewrite nth_error_upd, H.
+    destruct (Nat.eqb j r); unfold f; cbn; eauto. }
+  constructor; unfold with_store; cbn [w_n w_archs w_tid w_slots w_free w_len w_res].
+  - (* shapes *)
+    intros b Hb0. apply In_upd_arch in Hb0 as (a0 & Ha0 & ->).
+    destruct (@inv_shapes w HI a0 Ha0) as [Hl0 Hr0].
+    destruct (shape_eqb (a_shape a0) sh) eqn:E; [|split; auto].
+    apply shape_eqb_eq in E. cbn [a_shape a_rows]. split; auto.
+    intros rw Hrw. apply In_nth_error in Hrw as [j Hj].
+    rewrite nth_error_upd in Hj.
+    destruct (Nat.eqb j r).
+    + destruct (nth_error (a_rows a0) j) as [rw0|] eqn:Ej; cbn in Hj; inversion Hj; subst rw.
+      unfold f; cbn [snd]. rewrite upd_length. apply Hr0. eapply nth_error_In; eauto.
+    + apply Hr0. eapply nth_error_In; eauto.
+  - rewrite map_shape_upd_arch. apply (inv_nodup HI).
+  - (* fwd *)
+    intros j g' sh0 r0 Hj.
+    destruct (@inv_fwd w HI j g' sh0 r0 Hj) as (a0 & vals0 & Ha0 & Hr0).
+    destruct (shape_eqb sh0 sh) eqn:E.
+    + apply shape_eqb_eq in E. subst sh0. rewrite Ha in Ha0. inversion Ha0; subst a0.
+      destruct (Hrow2 _ _ _ Hr0) as [vals1 H1].
+      exists (mkArch sh (upd r f (a_rows a))), vals1. split; auto.
+      rewrite Hfind1, shape_eqb_refl. reflexivity.
+    + exists a0, vals0. split; auto. rewrite Hfind1, E. exact Ha0.
+  - (* bwd *)
+    intros sh0 a1 r0 j g' vals0 Ha1 Hr1. rewrite Hfind1 in Ha1.
+    destruct (shape_eqb sh0 sh) eqn:E.
+    + apply shape_eqb_eq in E. subst sh0. inversion Ha1; subst a1. cbn [a_rows] in Hr1.
+      destruct (Hrow1 _ _ _ Hr1) as [vals1 H1].
+      apply (@inv_bwd w HI sh a r0 j g' vals1 Ha H1).
+    + apply (@inv_bwd w HI sh0 a1 r0 j g' vals0 Ha1 Hr1).
+  - apply (inv_free_nodup HI).
+  - apply (inv_free HI).
+  - rewrite (inv_len HI).
+    pose proof (total_rows_upd_arch sh (upd r f) (w_archs w) (inv_nodup HI) Ha) as T.
+    rewrite upd_length in T. lia.
+  - intros sh0 Hsh0. destruct (inv_tid HI sh0 Hsh0) as [a0 Ha0].
+    rewrite Hfind1. destruct (shape_eqb sh0 sh); eauto.
+Qed.
+
+(** * The operations: combined statements *)
+
+Definition good (w : world) (res : result) : Prop :=
+  exists w' r evs, res = Some (w', r, evs) /\ Inv w' /\ w_n w' = w_n w.
+
+Lemma good_inv w res w' r evs : good w res -> res = Some (w', r, evs) -> Inv w'.
+Proof.
+  intros (w1 & r1 & e1 & H1 & HI & Hn) H. rewrite H1 in H. inversion H; subst; auto.
+Qed.
+
+Lemma good_n w res w' r evs : good w res -> res = Some (w', r, evs) -> w_n w' = w_n w.
+Proof.
+  intros (w1 & r1 & e1 & H1 & HI & Hn) H. rewrite H1 in H. inversion H; subst; auto.
+Qed.
+
+Lemma good_safe w res : good w res -> res <> None.
+Proof. intros (w1 & r1 & e1 & H1 & _) H. rewrite H1 in H. discriminate. Qed.
+
+Lemma good_same w r evs : Inv w -> good w (Some (w, r, evs)).
+Proof. intros HI. exists w, r, evs. auto. Qed.
+
+Lemma do_remove_good w e : Inv w -> good w (do_remove w e).
+Proof.
+  intros HI. unfold do_remove. destruct e as [i g].
+  destruct (get_loc w (i, g)) as [[sh r]|] eqn:G.
+  2:{ apply good_same; auto. }
+  apply get_loc_slot in G. cbn [fst snd] in G.
+  destruct (take_row_spec w i g sh r HI G) as (archs1 & slots1 & vals & Htr & Hvl & Hshl & HE).
+  rewrite Htr. cbn [obind fst snd].
+  destruct (free_close _ _ _ HE) as (slots2 & free2 & Hfs & HI').
+  unfold with_store in Hfs; cbn [w_slots w_free] in Hfs. rewrite Hfs. cbn [obind].
+  do 3 eexists. split; [reflexivity|]. split; [exact HI'|reflexivity].
+Qed.
+
+Lemma do_write_good w e c v : Inv w -> good w (do_write w e c v).
+Proof.
+  intros HI. unfold do_write.
+  destruct (Nat.ltb c (w_n w)); cbn [negb].
+  2:{ apply good_same; auto. }
+  destruct e as [i g].
+  destruct (get_loc w (i, g)) as [[sh r]|] eqn:G.
+  2:{ apply good_same; auto. }
+  apply get_loc_slot in G. cbn [fst snd] in G.
+  destruct (get_bit c sh) eqn:Hb.
+  2:{ apply good_same; auto. }
+  destruct (set_value_spec w i g sh r c v HI G Hb) as (archs1 & old & Hsv & HI').
+  rewrite Hsv. cbn [obind].
+  do 3 eexists. split; [reflexivity|]. split; [exact HI'|reflexivity].
+Qed.
+
+Lemma do_entry_add_good w e c v : Inv w -> good w (do_entry_add w e c v).
+Proof.
+  intros HI. unfold do_entry_add.
+  destruct (Nat.ltb_spec c (w_n w)) as [Hc|Hc]; cbn [negb].
+  2:{ apply good_same; auto. }
+  destruct e as [i g].
+  destruct (get_loc w (i, g)) as [[sh r]|] eqn:G.
+  2:{ apply good_same; auto. }
+  apply get_loc_slot in G. cbn [fst snd] in G.
+  destruct (get_bit c sh) eqn:Hb.
+  - destruct (set_value_spec w i g sh r c v HI G Hb) as (archs1 & old & Hsv & HI').
+    rewrite Hsv. cbn [obind].
+    do 3 eexists. split; [reflexivity|]. split; [exact HI'|reflexivity].
+  - destruct (take_row_spec w i g sh r HI G) as (archs1 & slots1 & vals & Htr & Hvl & Hshl & HE).
+    rewrite Htr. cbn [obind fst snd].
+    destruct (move_close _ i g (set_bit c true sh)
+                (insert_at (rank c (set_bit c true sh)) v vals) HE)
+      as (archs2 & slots2 & Hmv & HI').
+    + rewrite set_bit_length. exact Hshl.
+    + rewrite insert_at_length, Hvl. symmetry. apply count_true_set_true; auto. lia.
+    + unfold with_store in Hmv; cbn [w_archs w_slots] in Hmv. rewrite Hmv. cbn [obind].
+      do 3 eexists. split; [reflexivity|]. split; [exact HI'|reflexivity].
+Qed.
+
+Lemma do_entry_remove_good w e c : Inv w -> good w (do_entry_remove w e c).
+Proof.
+  intros HI. unfold do_entry_remove.
+  destruct (Nat.ltb_spec c (w_n w)) as [Hc|Hc]; cbn [negb].
+  2:{ apply good_same; auto. }
+  destruct e as [i g].
+  destruct (get_loc w (i, g)) as [[sh r]|] eqn:G.
+  2:{ apply good_same; auto. }
+  apply get_loc_slot in G. cbn [fst snd] in G.
+  destruct (get_bit c sh) eqn:Hb.
+  2:{ apply good_same; auto. }
+  destruct (take_row_spec w i g sh r HI G) as (archs1 & slots1 & vals & Htr & Hvl & Hshl & HE).
+  rewrite Htr. cbn [obind fst snd].
+  pose proof (rank_lt sh c Hb) as Hrk.
+  destruct (nth_error vals (rank c sh)) as [old|] eqn:Hold.
+  2:{ apply nth_error_None in Hold. lia. }
+  cbn [obind].
+  destruct (move_close _ i g (set_bit c false sh) (remove_at (rank c sh) vals) HE)
+    as (archs2 & slots2 & Hmv & HI').
+  - rewrite set_bit_length. exact Hshl.
+  - rewrite remove_at_length by lia. pose proof (count_true_set_false sh c Hb). lia.
+  - unfold with_store in Hmv; cbn [w_archs w_slots] in Hmv. rewrite Hmv. cbn [obind].
+    do 3 eexists. split; [reflexivity|]. split; [exact HI'|reflexivity].
+Qed.
+
+(** * [do_clear] *)
+
+(** [Inv] with the [w_len] clause made vacuous: the loop state of [clear_archs]. *)
+Definition StInv (w : world) (archs : list arch) (slots : list slot) (free : list nat) : Prop :=
+  Inv (with_store w archs (w_tid w) slots free (total_rows archs)).
+
+Lemma StInv_init w : Inv w -> StInv w (w_archs w) (w_slots w) (w_free w).
+Proof. intros HI. unfold StInv. rewrite <- (inv_len HI). destruct w; exact HI. Qed.
+
+Definition deact (s : slot) : slot := mkSlot (s_gen s) None.
+
+Lemma ids_nodup_of_bwd (slots : list slot) (sh : shape) (rows : list row) :
+  (forall r i g vals, nth_error rows r = Some ((i, g), vals) ->
+                      nth_error slots i = Some (mkSlot g (Some (sh, r)))) ->
+  NoDup (map (fun rw : row => fst (fst rw)) rows).
+Proof.
+  intros Hb. apply NoDup_nth_error. intros j1 j2 Hlt Heq.
+  rewrite map_length in Hlt. rewrite !nth_error_map in Heq.
+  destruct (nth_error rows j1) as [[[i1 g1] v1]|] eqn:E1.
+  2:{ apply nth_error_None in E1. lia. }
+  destruct (nth_error rows j2) as [[[i2 g2] v2]|] eqn:E2; cbn in Heq; [|discriminate].
+  inversion Heq; subst i2.
+  pose proof (Hb _ _ _ _ E1) as S1.
+  pose proof (Hb _ _ _ _ E2) as S2.
+  rewrite S1 in S2. inversion S2. reflexivity.
+Qed.
+
+Lemma free_all_spec : forall ids slots free,
+  (forall i, In i ids -> i < length slots) ->
+  exists slots',
+    free_all ids slots free = Some (slots', free ++ ids) /\
+    (forall j, In j ids -> nth_error slots' j = option_map deact (nth_error slots j)) /\
+    (forall j, ~ In j ids -> nth_error slots' j = nth_error slots j).
+Proof.
+  induction ids as [|i t IH]; intros slots free Hb.
+  - exists slots. cbn [free_all]. rewrite app_nil_r. split; auto. split; [intros j []|auto].
+  - assert (Hi : i < length slots) by (apply Hb; left; reflexivity).
+    destruct (nth_error slots i) as [s|] eqn:Es.
+    2:{ apply nth_error_None in Es. lia. }
+    destruct (IH (upd i deact slots) (free ++ [i])) as (slots' & Hfa & Hin & Hout).
+    { intros k Hk. rewrite upd_length. apply Hb. right; exact Hk. }
+    exists slots'. split.
+    { cbn [free_all]. unfold free_slot. rewrite Es. cbn [obind].
+      rewrite <- app_assoc in Hfa. exact Hfa. }
+    split.
+    + intros j Hj. destruct (in_dec Nat.eq_dec j t) as [Hjt|Hjt].
+      * rewrite (Hin j Hjt). rewrite nth_error_upd.
+        destruct (Nat.eqb_spec j i); [|reflexivity].
+        destruct (nth_error slots j); reflexivity.
+      * rewrite (Hout j Hjt). destruct Hj as [<-|Hj]; [|contradiction].
+        rewrite nth_error_upd_same. reflexivity.
+    + intros j Hj. rewrite Hout by (intros H; apply Hj; right; exact H).
+      apply nth_error_upd_other. intros ->. apply Hj; left; reflexivity.
+Qed.
+
+Definition emptied (sh : shape) (archs : list arch) : Prop :=
+  forall a, find_arch sh archs = Some a -> a_rows a = [].
+
+Lemma clear_arch_spec w sh archs slots free evs :
+  StInv w archs slots free ->
+  exists archs' slots' free' evs',
+    clear_arch sh (archs, slots, free, evs) = Some (archs', slots', free', evs') /\
+    StInv w archs' slots' free' /\
+    map a_shape archs' = map a_shape archs /\
+    emptied sh archs' /\
+    (forall sh0, emptied sh0 archs -> emptied sh0 archs').
+Proof.
+  intros HI. unfold clear_arch.
+  destruct (find_arch sh archs) as [a|] eqn:Ha.
+  2:{ exists archs, slots, free, evs. split; [reflexivity|]. split; [exact HI|].
+      split; [reflexivity|]. split; [|auto].
+      intros a Ha'. rewrite Ha in Ha'. discriminate. }
+  unfold StInv in HI.
+  destruct HI as [Ishapes Inodup Ifwd Ibwd Ifn Ifree Ilen Itid].
+  unfold with_store in *. cbn [w_n w_archs w_tid w_slots w_free w_len w_res] in *.
+  set (ids := map (fun rw : row => fst (fst rw)) (a_rows a)).
+  assert (Hact : forall j, In j ids ->
+            exists g r, nth_error slots j = Some (mkSlot g (Some (sh, r)))).
+  { intros j Hj. unfold ids in Hj. apply in_map_iff in Hj as ([[j' g'] vals'] & <- & Hrw).
+    apply In_nth_error in Hrw as [r Hr]. cbn [fst]. exists g', r.
+    apply (Ibwd sh a r j' g' vals' Ha Hr). }
+  assert (Hnd : NoDup ids).
+  { unfold ids. apply (ids_nodup_of_bwd slots sh). intros r i g vals Hr.
+    apply (Ibwd sh a r i g vals Ha Hr). }
+  destruct (free_all_spec ids slots free) as (slots' & Hfa & Hin' & Hout').
+  { intros i Hi. destruct (Hact i Hi) as (g & r & Hs). apply nth_error_Some. rewrite Hs. discriminate. }
+  exists (upd_arch sh (fun _ => []) archs), slots', (free ++ ids), (evs ++ arch_drops a).
+  split.
+  { match goal with |- context [free_all ?x slots free] => change x with ids end.
+    rewrite Hfa. cbn [obind]. reflexivity. }
+  assert (Hfind' : forall sh0, find_arch sh0 (upd_arch sh (fun _ => []) archs) =
+            if shape_eqb sh0 sh then Some (mkArch sh []) else find_arch sh0 archs).
+  { intros sh0. rewrite find_upd_arch, Ha. cbn [option_map].
+    rewrite (find_arch_shape _ _ Ha). reflexivity. }
+  split; [|split; [|split]].
+  - unfold StInv.
+    constructor; unfold with_store; cbn [w_n w_archs w_tid w_slots w_free w_len w_res].
+    + (* shapes *)
+      intros b Hb. apply In_upd_arch in Hb as (a0 & Ha0 & ->).
+      destruct (Ishapes a0 Ha0) as [Hl0 Hr0].
+      destruct (shape_eqb (a_shape a0) sh); [|split; auto].
+      cbn [a_shape a_rows]. split; auto. intros rw [].
+    + rewrite map_shape_upd_arch. exact Inodup.
+    + (* fwd *)
+      intros j g' sh0 r0 Hj.
+      destruct (in_dec Nat.eq_dec j ids) as [Hjin|Hjout].
+      * rewrite (Hin' j Hjin) in Hj.
+        destruct (nth_error slots j); cbn in Hj; inversion Hj.
+      * rewrite (Hout' j Hjout) in Hj.
+        destruct (Ifwd j g' sh0 r0 Hj) as (a0 & vals0 & Ha0 & Hr0).
+        destruct (shape_eqb sh0 sh) eqn:E.
+        { apply shape_eqb_eq in E. subst sh0. rewrite Ha in Ha0. inversion Ha0; subst a0.
+          exfalso. apply Hjout. unfold ids. apply in_map_iff.
+          exists ((j, g'), vals0). split; [reflexivity|]. eapply nth_error_In; eauto. }
+        exists a0, vals0. split; auto. rewrite Hfind', E. exact Ha0.
+    + (* bwd *)
+      intros sh0 a1 r0 j g' vals0 Ha1 Hr1. rewrite Hfind' in Ha1.
+      destruct (shape_eqb sh0 sh) eqn:E.
+      { inversion Ha1; subst a1. cbn [a_rows] in Hr1. destruct r0; discriminate. }
+      pose proof (Ibwd sh0 a1 r0 j g' vals0 Ha1 Hr1) as Hsj.
+      assert (Hjout : ~ In j ids).
+      { intros Hjin. destruct (Hact j Hjin) as (g2 & r2 & H2).
+        rewrite Hsj in H2. inversion H2; subst.
+        rewrite shape_eqb_refl in E. discriminate. }
+      rewrite (Hout' j Hjout). exact Hsj.
+    + (* free nodup *)
+      apply NoDup_app_intro; auto.
+      intros x Hx1 Hx2. apply Ifree in Hx1 as [g1 H1].
+      destruct (Hact x Hx2) as (g2 & r2 & H2). rewrite H1 in H2. discriminate.
+    + (* free *)
+      intros j. split.
+      * intros Hj. destruct (in_dec Nat.eq_dec j ids) as [Hjin|Hjout].
+        { rewrite (Hin' j Hjin). destruct (Hact j Hjin) as (g2 & r2 & H2).
+          rewrite H2. exists g2. reflexivity. }
+        { rewrite (Hout' j Hjout). apply Ifree.
+          apply in_app_or in Hj as [Hj|Hj]; [exact Hj|contradiction]. }
+      * intros [g' Hg']. apply in_or_app.
+        destruct (in_dec Nat.eq_dec j ids) as [Hjin|Hjout]; [right; exact Hjin|].
+        left. apply Ifree. rewrite (Hout' j Hjout) in Hg'. eauto.
+    + reflexivity.
+    + intros sh0 Hsh0. destruct (Itid sh0 Hsh0) as [a0 Ha0].
+      rewrite Hfind'. destruct (shape_eqb sh0 sh); eauto.
+  - apply map_shape_upd_arch.
+  - intros a1 H1. rewrite Hfind', shape_eqb_refl in H1. inversion H1; reflexivity.
+  - intros sh0 He a1 H1. rewrite Hfind' in H1.
+    destruct (shape_eqb sh0 sh); [inversion H1; reflexivity|]. apply He; exact H1.
+Qed.
+
+Lemma clear_archs_spec w : forall order archs slots free evs,
+  StInv w archs slots free ->
+  exists archs' slots' free' evs',
+    clear_archs order (archs, slots, free, evs) = Some (archs', slots', free', evs') /\
+    StInv w archs' slots' free' /\
+    map a_shape archs' = map a_shape archs /\
+    (forall sh0, emptied sh0 archs -> emptied sh0 archs') /\
+    (forall sh0, In sh0 order -> emptied sh0 archs').
+Proof.
+  induction order as [|sh t IH]; intros archs slots free evs HI.
+  - exists archs, slots, free, evs. cbn [clear_archs].
+    split; [reflexivity|]. split; [exact HI|]. split; [reflexivity|]. split; [auto|].
+    intros sh0 [].
+  - destruct (clear_arch_spec w sh archs slots free evs HI)
+      as (a1 & s1 & f1 & e1 & H1 & HI1 & Hm1 & He1 & Hp1).
+    destruct (IH a1 s1 f1 e1 HI1) as (a2 & s2 & f2 & e2 & H2 & HI2 & Hm2 & Hp2 & Ho2).
+    exists a2, s2, f2, e2. cbn [clear_archs]. rewrite H1. cbn [obind].
+    split; [exact H2|]. split; [exact HI2|]. split; [congruence|]. split; [auto|].
+    intros sh0 [<-|Hin]; auto.
+Qed.
+
+Lemma total_rows_all_empty (archs : list arch) :
+  (forall a, In a archs -> a_rows a = []) -> total_rows archs = 0.
+Proof.
+  induction archs as [|a t IH]; intros H; [reflexivity|].
+  rewrite total_rows_cons. rewrite (H a) by (left; reflexivity).
+  rewrite IH; [reflexivity|]. intros b Hb. apply H. right; exact Hb.
+Qed.
+
+Lemma do_clear_good w visit : Inv w -> good w (do_clear w visit).
+Proof.
+  intros HI. unfold do_clear.
+  destruct (clear_archs_spec w (visit ++ map a_shape (w_archs w))
+              (w_archs w) (w_slots w) (w_free w) [] (StInv_init w HI))
+    as (a2 & s2 & f2 & e2 & H2 & HI2 & Hm2 & _ & Ho2).
+  rewrite H2. cbn [obind].
+  do 3 eexists. split; [reflexivity|]. split; [|reflexivity].
+  assert (T : total_rows a2 = 0).
+  { apply total_rows_all_empty. intros a Ha.
+    apply (Ho2 (a_shape a)).
+    - apply in_or_app. right. rewrite <- Hm2. apply in_map. exact Ha.
+    - apply In_find_arch; auto. apply (inv_nodup HI2). }
+  unfold StInv in HI2. rewrite T in HI2. exact HI2.
+Qed.
+
+(** * The theorems *)
+
+Theorem do_remove_inv : forall w e w' r evs,
+  Inv w -> do_remove w e = Some (w', r, evs) -> Inv w'.
+Proof. intros w e w' r evs HI H. exact (good_inv w _ w' r evs (do_remove_good w e HI) H). Qed.
+
+Theorem do_remove_n : forall w e w' r evs,
+  Inv w -> do_remove w e = Some (w', r, evs) -> w_n w' = w_n w.
+Proof. intros w e w' r evs HI H. exact (good_n w _ w' r evs (do_remove_good w e HI) H). Qed.
+
+Theorem do_remove_safe : forall w e, Inv w -> do_remove w e <> None.
+Proof. intros w e HI. exact (good_safe w _ (do_remove_good w e HI)). Qed.
+
+Theorem do_entry_add_inv : forall w e c v w' r evs,
+  Inv w -> do_entry_add w e c v = Some (w', r, evs) -> Inv w'.
+Proof.
+  intros w e c v w' r evs HI H. exact (good_inv w _ w' r evs (do_entry_add_good w e c v HI) H).
+Qed.
+
+Theorem do_entry_add_n : forall w e c v w' r evs,
+  Inv w -> do_entry_add w e c v = Some (w', r, evs) -> w_n w' = w_n w.
+Proof.
+  intros w e c v w' r evs HI H. exact (good_n w _ w' r evs (do_entry_add_good w e c v HI) H).
+Qed.
+
+Theorem do_entry_add_safe : forall w e c v, Inv w -> do_entry_add w e c v <> None.
+Proof. intros w e c v HI. exact (good_safe w _ (do_entry_add_good w e c v HI)). Qed.
+
+Theorem do_entry_remove_inv : forall w e c w' r evs,
+  Inv w -> do_entry_remove w e c = Some (w', r, evs) -> Inv w'.
+Proof.
+  intros w e c w' r evs HI H. exact (good_inv w _ w' r evs (do_entry_remove_good w e c HI) H).
+Qed.
+
+Theorem do_entry_remove_n : forall w e c w' r evs,
+  Inv w -> do_entry_remove w e c = Some (w', r, evs) -> w_n w' = w_n w.
+Proof.
+  intros w e c w' r evs HI H. exact (good_n w _ w' r evs (do_entry_remove_good w e c HI) H).
+Qed.
+
+Theorem do_entry_remove_safe : forall w e c, Inv w -> do_entry_remove w e c <> None.
+Proof. intros w e c HI. exact (good_safe w _ (do_entry_remove_good w e c HI)). Qed.
+
+Theorem do_write_inv : forall w e c v w' r evs,
+  Inv w -> do_write w e c v = Some (w', r, evs) -> Inv w'.
+Proof.
+  intros w e c v w' r evs HI H. exact (good_inv w _ w' r evs (do_write_good w e c v HI) H).
+Qed.
+
+Theorem do_write_n : forall w e c v w' r evs,
+  Inv w -> do_write w e c v = Some (w', r, evs) -> w_n w' = w_n w.
+Proof.
+  intros w e c v w' r evs HI H. exact (good_n w _ w' r evs (do_write_good w e c v HI) H).
+Qed.
+
+Theorem do_write_safe : forall w e c v, Inv w -> do_write w e c v <> None.
+Proof. intros w e c v HI. exact (good_safe w _ (do_write_good w e c v HI)). Qed.
+
+Theorem do_clear_inv : forall w visit w' r evs,
+  Inv w -> do_clear w visit = Some (w', r, evs) -> Inv w'.
+Proof.
+  intros w visit w' r evs HI H. exact (good_inv w _ w' r evs (do_clear_good w visit HI) H).
+Qed.
+
+Theorem do_clear_n : forall w visit w' r evs,
+  Inv w -> do_clear w visit = Some (w', r, evs) -> w_n w' = w_n w.
+Proof.
+  intros w visit w' r evs HI H. exact (good_n w _ w' r evs (do_clear_good w visit HI) H).
+Qed.
+
+Theorem do_clear_safe : forall w visit, Inv w -> do_clear w visit <> None.
+Proof. intros w visit HI. exact (good_safe w _ (do_clear_good w visit HI)). Qed.
+
+Print Assumptions do_remove_inv.
+Print Assumptions do_remove_safe.
+Print Assumptions do_entry_add_inv.
+Print Assumptions do_entry_add_safe.
+Print Assumptions do_entry_remove_inv.
+Print Assumptions do_entry_remove_safe.
+Print Assumptions do_write_inv.
+Print Assumptions do_write_safe.
+Print Assumptions do_clear_inv.
+Print Assumptions do_clear_safe.
+Print Assumptions do_remove_n.
+Print Assumptions do_entry_add_n.
+Print Assumptions do_entry_remove_n.
+Print Assumptions do_write_n.
+Print Assumptions do_clear_n.
